@@ -383,6 +383,10 @@ class KroneckerProductTriangularLinearOperator(KroneckerProductLinearOperator, _
         super().__init__(*linear_ops, upper=upper)
         self.upper = upper
 
+    def _transpose_nonbatch(self: Float[LinearOperator, "*batch M N"]) -> Float[LinearOperator, "*batch N M"]:
+        # the transpose of a lower triangular operator is upper triangular (and vice versa)
+        return self.__class__(*(linear_op._transpose_nonbatch() for linear_op in self.linear_ops), upper=not self.upper)
+
     @cached
     def inverse(self: Float[LinearOperator, "*batch N N"]) -> Float[LinearOperator, "*batch N N"]:
         # here we use that (A \kron B)^-1 = A^-1 \kron B^-1
